@@ -25,6 +25,12 @@ func die(format string, args ...any) {
 }
 
 func main() {
+	// goroutines the library starts need two descriptors each: lift the soft limit to the hard one
+	var rl syscall.Rlimit
+	if syscall.Getrlimit(syscall.RLIMIT_NOFILE, &rl) == nil && rl.Cur < rl.Max {
+		rl.Cur = rl.Max
+		syscall.Setrlimit(syscall.RLIMIT_NOFILE, &rl)
+	}
 	path := os.Getenv("ZZSIM_CMD")
 	if path == "" {
 		die("ZZSIM_CMD not set")
